@@ -5,6 +5,7 @@ import (
 	"fmt"
 	"math"
 	"math/cmplx"
+	"sync"
 
 	R "github.com/Trisia/randomness"
 	"github.com/Trisia/randomness/detect"
@@ -68,7 +69,7 @@ func evalIgW(cs igCase) (bad bool, errOverTol float64, msg string, want float64)
 }
 
 func runC06(c *ev.Ctx) {
-	c.Rule = "each case = (a = k/2, x [, x' > x]); Igamc compared with the exact finite sum for Q(k/2,x) evaluated in 160-bit arithmetic (erfc for the half-integer head), tolerance 1e-12+1e-14a; plus exact-1 for x<=0, range [0,1], monotone in x up to tolerance; non-trivial = exact Q in (1e-300, 1-1e-15) or x<=0 probe; distinct = distinct (k, x bits)"
+	c.Rule = "each case = (a = k/2, x [, x' > x]); Igamc compared with the exact finite sum for Q(k/2,x) evaluated in 160-bit arithmetic (erfc for the half-integer head), tolerance 1e-12+1e-14a; plus exact-1 for x<=0, range [0,1], monotone in x up to tolerance; plus a concurrent hammer (8 goroutines, two per shape, shapes in arithmetic families with strides 1..2048, every result bit-identical to the solo result); non-trivial = exact Q in (1e-300, 1-1e-15) or x<=0 probe; distinct = distinct (k, x bits)"
 	c.Assumptions = []string{"math.Erfc correct to ~1 ulp", "math/big arithmetic", "the exact finite-sum identities for integer and half-integer shapes"}
 	seed := uint64(c.Seed)
 	var ks []int
@@ -82,6 +83,9 @@ func runC06(c *ev.Ctx) {
 	if c.Thorough() {
 		nSeeded = 600
 		per = 1200
+	}
+	if c.Lite() {
+		per /= 5
 	}
 	for i := 0; i < nSeeded; i++ {
 		ks = append(ks, rg.Range(1, 10000))
@@ -146,7 +150,77 @@ func runC06(c *ev.Ctx) {
 			c.Sample(map[string]interface{}{"a": float64(cs.TwoA) / 2, "x": cs.X, "result": msg})
 		}
 	})
+	igamcHammer(c, seed)
 	c.Note("shapes", fmt.Sprintf("k/2 for every k<=128, {255,256,511,1000,2000,4001,6000,8000,9999,10000} and %d seeded k<=10000", nSeeded))
+}
+
+// igamcHammer: the function is pure, so concurrent callers must get exactly what a lone caller gets.
+// Few shapes, called very often, two goroutines per shape, shapes in arithmetic families with
+// power-of-two strides (anything memoised per shape in a small table collides on such families).
+func igamcHammer(c *ev.Ctx, seed uint64) {
+	iters := 25000
+	if c.Thorough() {
+		iters = 400000
+	}
+	r := gen.NewRng(gen.Mix(seed, 6006))
+	type pt struct {
+		a, x float64
+		want uint64
+	}
+	var calls, bad int64
+	var mu sync.Mutex
+	for _, stride := range []int{1, 2, 3, 4, 8, 16, 32, 64, 128, 256, 512, 1024, 2048} {
+		for _, half := range []bool{false, true} {
+			k0 := r.Range(1, 60)
+			shapes := make([][]pt, 4)
+			for j := range shapes {
+				k := 2 * (k0 + j*stride)
+				if half {
+					k = k0 + j*stride // half-integer steps
+				}
+				if k > 10000 {
+					k = 10000 - j
+				}
+				a := float64(k) / 2
+				for _, f := range []float64{0.3, 0.9, 1.0, 1.2, 2.5} {
+					x := a * f
+					shapes[j] = append(shapes[j], pt{a, x, math.Float64bits(R.Igamc(a, x))})
+				}
+			}
+			var wg sync.WaitGroup
+			start := make(chan struct{})
+			for g := 0; g < 8; g++ {
+				wg.Add(1)
+				go func(g int) {
+					defer wg.Done()
+					pts := shapes[g%4]
+					<-start
+					n := 0
+					for i := 0; i < iters; i++ {
+						p := pts[(i+g)%len(pts)]
+						got := R.Igamc(p.a, p.x)
+						n++
+						if math.Float64bits(got) != p.want && !(math.IsNaN(got) && math.IsNaN(math.Float64frombits(p.want))) {
+							mu.Lock()
+							bad++
+							if bad <= 3 {
+								c.Violation(fmt.Sprintf("igamc:concurrent:stride=%d:a=%v:x=%v", stride, p.a, p.x),
+									fmt.Sprintf("Igamc(%v,%v) returned %.17g while other goroutines evaluated shapes %v apart; alone it returns %.17g", p.a, p.x, got, stride, math.Float64frombits(p.want)), "igamc", igCase{TwoA: int(2 * p.a), X: p.x})
+							}
+							mu.Unlock()
+						}
+					}
+					mu.Lock()
+					calls += int64(n)
+					mu.Unlock()
+				}(g)
+			}
+			close(start)
+			wg.Wait()
+			c.Eval(ev.HashStr(fmt.Sprintf("hammer|%d|%v", stride, half)), true)
+		}
+	}
+	c.Count("concurrent_hammer_calls_compared_with_solo", calls)
 }
 
 // ---------------- C12 ----------------
@@ -227,6 +301,9 @@ func runC12(c *ev.Ctx) {
 	nl := 20000
 	if c.Thorough() {
 		nl = 200000
+	}
+	if c.Lite() {
+		nl /= 6
 	}
 	edges := []float64{0, 1}
 	for k := 1; k <= 9; k++ {
@@ -456,6 +533,15 @@ func runC19(c *ev.Ctx) {
 		for j := 0; j < reps; j++ {
 			cases = append(cases, fftCase{lg, "random", 0, gen.Mix(seed, uint64(lg), uint64(j), 1)}, fftCase{lg, "pm1", 0, gen.Mix(seed, uint64(lg), uint64(j), 2)})
 		}
+	}
+	if c.Lite() {
+		var keep []fftCase
+		for i, cs := range cases {
+			if cs.LogN >= 16 || i%6 == 0 {
+				keep = append(keep, cs)
+			}
+		}
+		cases = keep
 	}
 	workers := 16
 	if c.Thorough() {
